@@ -8,6 +8,7 @@ import (
 	"fmt"
 	"io"
 	"net"
+	"runtime"
 	"sync"
 	"sync/atomic"
 	"time"
@@ -18,6 +19,7 @@ import (
 )
 
 func runC11Listener(c C11Case) (ev.Outcome, bool) {
+	defer settleGoroutines(runtime.NumGoroutine())
 	l := c.Listener
 	o := ev.Outcome{Classes: []string{"kind:listener"}}
 	if l == nil || len(c.IDs) == 0 {
